@@ -106,8 +106,8 @@ def gen_cases(ctx):
             e, f, n = rng.randrange(0, 70), rng.randrange(0, 70), rng.randrange(0, 90)
             cases.append(mk(rng, e * w, f * w, n * w, "samples", slack_d=rng.choice((0, 0, 1, 5)), slack_s=rng.choice((0, 0, 1))))
     # 4. long copies, random offsets
-    for _ in range(250 if quick else 2500):
-        hi = 6000 if quick else 70000
+    for _ in range(250 if quick else 1500):
+        hi = 6000 if quick else 30000
         cnt = rng.choice((rng.randrange(41, 600), rng.randrange(256, hi), 8 * rng.randrange(1, hi // 8)))
         db = rng.choice((rng.randrange(0, 16), rng.randrange(0, 200), 8 * rng.randrange(0, 64)))
         sb = rng.choice((rng.randrange(0, 16), rng.randrange(0, 200), 8 * rng.randrange(0, 64), db % 8 + 8 * rng.randrange(0, 9)))
@@ -126,6 +126,7 @@ def gen_cases(ctx):
             k = rng.randrange(1, 6)
             cases.append(Case(content(rng, k + 1, 0), db, content(rng, k, 0), sb, 8 * k - sb + 1, "src+1bit"))
             cases.append(Case(content(rng, k, 0), db, content(rng, k + 1, 0), sb, 8 * k - db + 1, "dst+1bit"))
+    rng.shuffle(cases)      # spread the long copies over the shards
     return cases
 
 
@@ -189,7 +190,11 @@ def run_bits(ctx, build=True):
     cases = gen_cases(ctx)
     lines = [c.line() for c in cases]
     model = vlib.run_model("bits", lines)
-    slow = vlib.run_model("bits", lines, args=["slow"])
+    # the loop-only model is quadratic in the list model: long copies are compared on the fast model only
+    slow_idx = [i for i, c in enumerate(cases) if c.cnt <= 8000]
+    slow = [None] * len(cases)
+    for i, r in zip(slow_idx, vlib.run_model("bits", [lines[i] for i in slow_idx], args=["slow"])):
+        slow[i] = r
     # ASan build: fork under ASan costs ~50 ms, so cases predicted in bounds run in-process (run_inproc)
     inb_idx = [i for i, c in enumerate(cases) if c.inb]
     oob_idx = [i for i, c in enumerate(cases) if not c.inb]
@@ -242,7 +247,7 @@ def run_bits(ctx, build=True):
             stats["oob"] += 1
         if m != a:
             viol("model_vs_impl", c, line, "implementation(asan)=%s\nmodel=%s" % (a, m))
-        if c.inb and s != m:
+        if c.inb and s is not None and s != m:
             viol("slow_vs_fast", c, line, "bc_bit_copy_slow=%s\nbc_bit_copy=%s" % (s, m))
     d = ctx.extra.setdefault("distribution", {})
     d["bits"] = {"cases": len(cases), "by_generator": stats["by_tag"], "in_bounds": stats["in_bounds"], "out_of_bounds(model OOB, ASan must fault)": stats["oob"],
@@ -252,7 +257,7 @@ def run_bits(ctx, build=True):
             "src_bit 0..15 x count 0..40, all-0/all-1 contents, slack bytes, sample-shaped offsets (entry_count*w, ffwd*w for the 7 widths), long copies up to %d bits, "
             "buffers 1-2 bytes too short and copies one bit past the end (model OOB <-> ASan fault); distinct = (build, dst_bit mod 8, src_bit mod 8, count class, "
             "fast path taken, in bounds); non-trivial = count > 0; every in-bounds result is also compared with the bit-splice statement computed independently"
-            % (6000 if ctx.tier == "quick" else 70000))
+            % (6000 if ctx.tier == "quick" else 30000))
     ctx.cov["rule"] = (ctx.cov.get("rule", "") + " | " if ctx.cov.get("rule") else "") + rule
     return nviol
 
